@@ -117,7 +117,7 @@ def newWriter (s : Sender) (peerMax : Nat) : WriterRes :=
 
 inductive SendRes where
   | queued
-  /-- `io::ErrorKind::InvalidInput`: `1 + data.len() > max_datagram_frame_size` -/
+  /-- `io::ErrorKind::InvalidInput`: `1 + len_size + data.len() > max_datagram_frame_size` -/
   | refused
   | closed (e : ConnErr)
   deriving Repr, DecidableEq, Inhabited
@@ -127,8 +127,9 @@ def send (peerMax : Nat) (s : Sender) (data : Bytes) : Sender × SendRes :=
   match s.closed with
   | some e => (s, .closed e)
   | none =>
-    -- "Only consider the smallest encoding method: 1 byte"
-    if 1 + data.length > peerMax then (s, .refused)
+    -- the LARGEST encoding decides (fix-C19-frame-size-admission): `1 + varint(len) + len`, where
+    -- `VarInt::try_from(len).map_or(8, encoding_size)` is `varintSize len` (8 from 2^30 on)
+    if 1 + varintSize data.length + data.length > peerMax then (s, .refused)
     else ({ s with queue := s.queue ++ [data] }, .queued)
 
 inductive LoadRes where
@@ -384,17 +385,20 @@ def run (peerMax localMax : Nat) (ops : List Op) : Run :=
 /-! ## integration: what `Components::packages()` offers to the packet assembler
 (`qconnection/src/path/burst.rs`, `impl Components { fn packages }`): the 0-RTT sources are
 `Repeat(reliable_frames)`, `Repeat(data_streams.package(..))`, `// TODO: datagram`; the 1-RTT sources
-are the crypto stream, `Repeat(reliable_frames)`, `Repeat(data_streams.package(..))`,
-`// TODO: datagram`.  `DatagramFlow::try_load_data_into` has no caller. -/
+are the crypto stream, `Repeat(reliable_frames)`, `Repeat(data_streams.package(..))` and — since
+fix-C19-offer-datagrams — `Repeat(datagram_flow)` as the LAST source (`impl Package for DatagramFlow`,
+qdatagram/src/lib.rs: one `dump` = one `try_load_data_into`, `Ok(EffectivePayload)`). -/
 
 inductive Source where
   | crypto | reliableFrames | streams | datagrams
   deriving Repr, DecidableEq, Inhabited
 
 def zeroRttSources : List Source := [.reliableFrames, .streams]
-def oneRttSources : List Source := [.crypto, .reliableFrames, .streams]
+def oneRttSources : List Source := [.crypto, .reliableFrames, .streams, .datagrams]
 
-/-- the datagram part of one assembly pass that has `remaining` bytes left for it -/
+/-- the datagram part of one assembly pass that has `remaining` bytes left for it (`Repeat`: the
+loader is called until it answers `Err`; `remaining + 1` calls always suffice, each `Ok` writes
+at least one byte) -/
 def assembleDatagrams (sources : List Source) (remaining : Nat) (s : Sender) : Sender × Pkt :=
   if sources.contains .datagrams then
     let (s', p, _) := loadN (remaining + 1) remaining s
